@@ -16,7 +16,7 @@ def pause_twin(ch, ctx, did, steps, twin=False, **pol):
     """Run B: pause at a symbolic boundary, resume once at rest. Run A': the same completion
     order and outcomes with no pause. Status, executed tasks, errors and output must agree."""
     wf = defs.get(did)
-    b = Env(ch, wf, "C09", monitors=[C09Pause()], policy=Policy(steps=steps, control="pause", tokens=True, bits=True, **pol))
+    b = Env(ch, wf, "C09", monitors=[C09Pause()], policy=Policy(steps=steps, control="pause", tokens=True, bits=True, resume_verbs=True, **pol))
     b.counters = ctx["counters"]
     try:
         b.run()
